@@ -118,6 +118,20 @@ type c01Filter struct {
 	skip  *int64
 	limit *int64 // -1 = none
 	group bool   // print parentheses around (and/or/not)
+	// bc true only: the query has NO predicate (the empty filter "", `sort by ..`, `skip ..`, `limit ..`): the text
+	// of the predicate is empty, the term is `nopred` (the model reads it as the predicate true)
+	absent bool
+}
+
+// c01JoinQuery: predicate text + clauses, separated by one blank (a query without predicate starts with a clause)
+func c01JoinQuery(parts ...string) string {
+	var keep []string
+	for _, p := range parts {
+		if p != "" {
+			keep = append(keep, p)
+		}
+	}
+	return strings.Join(keep, " ")
 }
 
 var c01OpText = map[string]string{"eq": "=", "neq": "!=", "lt": "<", "lte": "<=", "gt": ">", "gte": ">=",
@@ -151,6 +165,8 @@ func (l *c01Lhs) term() string {
 
 func (f *c01Filter) text() string {
 	switch f.k {
+	case "raw": // a replayed predicate: the text as it was written, the term parsed (c01_history.go)
+		return f.name
 	case "bin":
 		sep := " "
 		return f.lhs.text() + sep + c01OpText[f.op] + sep + f.lit.text()
@@ -175,6 +191,9 @@ func (f *c01Filter) text() string {
 	case "emptyq":
 		return "isEmpty(from " + f.name + " where " + f.sub.text() + ")"
 	case "bc":
+		if f.absent {
+			return ""
+		}
 		if f.b {
 			return "true"
 		}
@@ -188,20 +207,25 @@ func (f *c01Filter) text() string {
 	case "or":
 		return "(" + f.a.text() + ") or (" + f.c.text() + ")"
 	case "q":
-		s := f.a.text()
-		if f.skip != nil {
-			s += " skip " + strconv.FormatInt(*f.skip, 10)
-		}
-		if f.limit != nil {
-			if *f.limit == -1 {
-				s += " limit none"
-			} else {
-				s += " limit " + strconv.FormatInt(*f.limit, 10)
-			}
-		}
-		return s
+		return c01JoinQuery(f.a.text(), c01PagingText(f))
 	}
 	panic("bad filter kind " + f.k)
+}
+
+// the skip / limit clauses of a query node
+func c01PagingText(f *c01Filter) string {
+	s := ""
+	if f.skip != nil {
+		s = "skip " + strconv.FormatInt(*f.skip, 10)
+	}
+	if f.limit != nil {
+		if *f.limit == -1 {
+			s = c01JoinQuery(s, "limit none")
+		} else {
+			s = c01JoinQuery(s, "limit "+strconv.FormatInt(*f.limit, 10))
+		}
+	}
+	return s
 }
 
 func c01Bool(b bool) string {
@@ -220,6 +244,8 @@ func c01OptInt(p *int64) string {
 
 func (f *c01Filter) term() string {
 	switch f.k {
+	case "raw":
+		return f.a.term()
 	case "bin":
 		return "bin " + f.lhs.term() + " " + f.op + " " + f.lit.term()
 	case "in":
@@ -242,6 +268,9 @@ func (f *c01Filter) term() string {
 	case "emptyq":
 		return "empty sub " + hxs(f.name) + " " + f.sub.term()
 	case "bc":
+		if f.absent {
+			return "nopred"
+		}
 		return "bc " + c01Bool(f.b)
 	case "bs":
 		return "bs " + hxs(f.name)
@@ -408,6 +437,8 @@ func (p *c01TermParser) filter() *c01Filter {
 		return &c01Filter{k: "emptyq", name: name, sub: p.filter()}
 	case "bc":
 		return &c01Filter{k: "bc", b: p.next() == "1"}
+	case "nopred":
+		return &c01Filter{k: "bc", b: true, absent: true}
 	case "bs":
 		return &c01Filter{k: "bs", name: string(unhx(p.next()))}
 	case "not":
